@@ -113,6 +113,25 @@ CLAIMED = {
              "correspondence on well-formed and malformed command lines; py2coq G1 constants.",
         technique="Coq proof (fold over option groups) + command-line correspondence + end-to-end port oracle computed from the raw argv",
         design="3 C10"),
+    "C04": dict(
+        text="Proof (TLS over TCP; QUIC by search and correspondence): Coq theorems C04_sessions_as_if_alone (for every capture, every interleaving and every packet q: the "
+             "sessions that take q's flow after reading the capture are exactly -- packet buffers, duplicate memories and all -- the sessions obtained from the capture "
+             "restricted to q's flow), C04_flows_disjoint (sessions of different flows are different sessions) and C04_output_is_union (the output is the concatenation of "
+             "the per-session outputs, each session decrypted and built on its own). Closed under the global context. The QUIC demultiplexer (addresses, then connection "
+             "IDs) has no theorem; the check merges 2..6 TLS/QUIC connections in all endpoint arrangements the property lists and compares, frame for frame, with the solo exports.",
+        note="Trusted: Coq kernel; models tied by byte-exact correspondence on interleaved captures; that a session only uses key-log lines with its own client random is read off "
+             "the model (find_session_secrets is a filter) and exercised by the shuffled shared key log, not proved end to end; 4-tuple reuse excluded.",
+        technique="Coq proof (projection of the session list onto a flow commutes with packet handling) + merged-vs-solo export comparison",
+        design="3 C04"),
+    "C18": dict(
+        text="Proof (partial by nature): the model of run() is a Gallina function of (capture items, secrets, options) starting from the empty state, so determinism of the MODEL "
+             "is definitional; the theorems proved are the ones that are not: C18_cid_scan_independent_of_set_order / C18_membership_independent_of_set_order (the only "
+             "iteration over a hash-ordered Python set in the modelled code -- a QUIC session's connection IDs -- gives the same result for every enumeration order, the sort "
+             "order being total, C18_scan_order_total). That the implementation IS that function on every run is decided by byte-identical exports across hash seeds (fixed "
+             "and random), working directories, time zone/locale, and in-process histories (after earlier runs, repeated, after runs with other options), plus model correspondence.",
+        note="Trusted: Coq kernel; the repetition sweep (fresh interpreters and one long-lived process); Python/dpkt/scapy internals are exercised, not modelled.",
+        technique="Coq proof (insertion sort over a strict total order is permutation-invariant) + repetition sweep over hash seeds, environments and in-process histories",
+        design="3 C18"),
     "C05": dict(
         text="Proof (partial): Coq theorems over the model of Session.handle_packet / extract_*_buf / get_tls_records: C05_segmentation_and_duplicates (per direction: ANY "
              "cut of a well-framed record stream into segments, from ANY initial sequence number modulo 2^32 -- streams across 2^32 included -- with ANY retransmitted "
